@@ -524,3 +524,19 @@ M('c09-relative-uri-without-root-path', 'C09', 'R19', 'falcon/request.py',
 # negative controls (exit 0): f-string / ''.join composition; `self._cached_prefix + self.path + ('?' + qs if qs else '')` behind
 # `is not None`; `self.prefix + self.path` then `+= '?' + qs`; `self.app` for root_path; relative_uri through a local with `+=`;
 # `!= ''` test; '%'-formatting is exit 2 (unreadable), never exit 1
+
+# ---------------------------------------------------------------- wave 10
+# R20 forwarded_host: ordered sources Forwarded first hop -> X-Forwarded-Host -> netloc on both stacks (s10-c09-3)
+M('c09-asgi-forwarded-host-first-hop-falls-back-on-host', 'C09', 'R20', 'falcon/asgi/request.py',
+  "                host = forwarded[0].host or self.netloc\n", "                host = forwarded[0].host or self.host\n")
+M('c09-wsgi-forwarded-host-no-header-falls-back-on-host', 'C09', 'R20', 'falcon/request.py',
+  "                host = self.env['HTTP_X_FORWARDED_HOST']\n            except KeyError:\n                host = self.netloc\n",
+  "                host = self.env['HTTP_X_FORWARDED_HOST']\n            except KeyError:\n                host = self.host\n")
+M('c09-asgi-forwarded-host-last-hop', 'C09', 'R20', 'falcon/asgi/request.py',
+  "                host = forwarded[0].host or self.netloc\n", "                host = forwarded[-1].host or self.netloc\n")
+M('c09-wsgi-forwarded-host-unusable-header-answers-none', 'C09', 'R20', 'falcon/request.py',
+  "                host = forwarded[0].host or self.netloc\n            else:\n                host = self.netloc\n",
+  "                host = forwarded[0].host or self.netloc\n            else:\n                host = None\n")
+# negative controls (exit 0): `first = forwarded[0]; host = first.host or self.netloc`; `host = self.env.get('HTTP_X_FORWARDED_HOST')
+# or self.netloc`... is a different function for a blank header and is judged by the worlds (non-blank header: silent);
+# early returns instead of the `host` local; `if not forwarded: return self.netloc`
